@@ -212,13 +212,15 @@ Definition note4_lt (a b : note4) : bool :=
   (ca <? cb)%Z || ((ca =? cb)%Z && Qlt_bool ta tb).
 Definition canon (l : list note4) : list note4 := sort_by note4_lt l.
 
-(* positional comparison after sorting by (column, time): same columns, times and lengths within the bounds *)
+(* positional comparison after sorting by (column, time): same columns, times within the bound at the note, lengths within
+   the bound at the note (head) plus the bound at its tail (a tail in a slower tempo segment may move by more than the head:
+   C03_sm_write_cap_bound — head and tail are each less than 1/96 beat early AT THEIR OWN tempo) *)
 Fixpoint notes_close (bound : note4 -> Q) (a b : list note4) : bool :=
   match a, b with
   | [], [] => true
   | x :: a', y :: b' =>
       let '(cx, tx_, lx) := x in let '(cy, ty, ly) := y in
-      (cx =? cy)%Z && q_close (bound x) tx_ ty && q_close (2 * bound x) lx ly && notes_close bound a' b'
+      (cx =? cy)%Z && q_close (bound x) tx_ ty && q_close (bound x + bound (cx, tx_ + lx, 0)) lx ly && notes_close bound a' b'
   | _, _ => false
   end.
 
